@@ -281,6 +281,7 @@ def run(c):
 
 def replay(c, exe):
     case = json.load(open(c.replay))["case"]
+    vlib.model_check(c, "PduRing", "PduRing.tla", "MC.cfg", workers=JOBS)        # the oracle itself, for the evidence record
     sp = vlib.write_lines(os.path.join(c.build_dir, "replay.txt"), case["script"])
     tp = os.path.join(c.build_dir, "replay.ndjson")
     vlib.run_harness(exe, [sp, tp])
